@@ -612,6 +612,7 @@ impl PointAssembler {
             ; mov x20, x0
             ; mov x21, x1
             ; mov x22, x2
+            ; mov x23, x3
 
             // Back up our state
             ; stp s16, s17, [sp, 0x50]
@@ -655,6 +656,7 @@ impl PointAssembler {
             ; mov x0, x20
             ; mov x1, x21
             ; mov x2, x22
+            ; mov x3, x23
         );
     }
 }
